@@ -23,6 +23,8 @@ ASSUMPTIONS = [
     "the built-in collect actions skip a non-first element whose result is None (a nullable element that matched nothing); the reference evaluator does the same",
     "reference evaluator (pv/props/c09.py ref_eval) states docs/actions.md and docs/grammar_language.md: argument order, alternative index, named-match binding, default nested lists with single-child unpacking, +,*,? built-ins",
     "actions are pure tagging functions, so results reveal argument order, alternative choice and bindings",
+    "an action set is what the parser's constructor was given: symbols it does not mention get the default, also when the same Grammar object served a parser with other actions before (checked for non-empty action sets only: a parser built without actions leaves the grammar's symbols untouched, by design)",
+    "results are compared with their container types (lists stay lists: 'the nested list that mirrors the derivation')",
 ]
 
 
@@ -92,8 +94,7 @@ def make_actions(case, log=None):
 
         def mk(rule, tag):
             def act(context, nodes, **kw):
-                return ("R", rule, tag, tuple(conv(n) for n in nodes),
-                        tuple(sorted((k, conv(v)) for k, v in kw.items())))
+                return ("R", rule, tag, tconv(nodes), tuple(sorted((k, tconv(v)) for k, v in kw.items())))
             return act
         if mode == "one":
             acts[r["name"]] = mk(r["name"], None)
@@ -109,12 +110,25 @@ def make_actions(case, log=None):
 
 
 def conv(v):
-    """make results comparable: lists -> tuples, obj instances -> tagged tuples"""
+    """loose variant (lists and tuples alike) used by C13 / C20, which compare parglare with parglare"""
     if isinstance(v, (list, tuple)):
         return tuple(conv(x) for x in v)
     if hasattr(v, "_pg_children_names"):
         return ("OBJ", type(v).__name__,
                 tuple(sorted((n, conv(getattr(v, n))) for n in v._pg_children_names)))
+    return v
+
+
+def tconv(v):
+    """make results comparable and hashable, keeping the container type: a list becomes ("list", ...), a
+    tuple stays a tuple (the property says nested *lists*), obj instances -> tagged tuples"""
+    if isinstance(v, list):
+        return ("list",) + tuple(tconv(x) for x in v)
+    if isinstance(v, tuple):
+        return tuple(tconv(x) for x in v)
+    if hasattr(v, "_pg_children_names"):
+        return ("OBJ", type(v).__name__,
+                tuple(sorted((n, tconv(getattr(v, n))) for n in v._pg_children_names)))
     return v
 
 
@@ -141,10 +155,10 @@ def ref_eval(node, case, helpers, with_actions):
                 # the built-in collect actions skip an element whose result is
                 # None (a nullable element that matched nothing) unless it is the first
                 if len(kids) == 1:
-                    return (sub[0],)
-                return tuple(sub[0]) + ((sub[-1],) if sub[-1] is not None else ())
+                    return [sub[0]]
+                return list(sub[0]) + ([sub[-1]] if sub[-1] is not None else [])
             if kind == "*":
-                return tuple(sub[0]) if kids else ()
+                return list(sub[0]) if kids else []
             return sub[0] if kids else None
         r = rules[name]
         # which alternative was applied: decided from the children's symbols, independently of
@@ -164,17 +178,17 @@ def ref_eval(node, case, helpers, with_actions):
             kw[e["name"]] = bool(sub[i]) if e.get("bool") else sub[i]
         mode = r["action"] if with_actions else "none"
         if mode in ("one", "list"):
-            return ("R", name, idx if mode == "list" else None, tuple(conv(x) for x in sub),
-                    tuple(sorted((k, conv(v)) for k, v in kw.items())))
+            return ("R", name, idx if mode == "list" else None, tconv(list(sub)),
+                    tuple(sorted((k, tconv(v)) for k, v in kw.items())))
         if has_named_rule:
             # default obj action for rules with named matches
-            return ("OBJ", name, tuple(sorted((k, conv(v)) for k, v in kw.items())))
-        return sub[0] if len(sub) == 1 else tuple(sub)
+            return ("OBJ", name, tuple(sorted((k, tconv(v)) for k, v in kw.items())))
+        return sub[0] if len(sub) == 1 else list(sub)
     import sys
     old = sys.getrecursionlimit()
     sys.setrecursionlimit(10000)
     try:
-        return conv(ev(node))
+        return tconv(ev(node))
     finally:
         sys.setrecursionlimit(old)
 
@@ -195,13 +209,28 @@ def run_case(case, ctx):
     helpers = helper_kinds(case)
     info0 = dict(grammar=text_g, actions={r["name"]: r["action"] for r in case["rules"]},
                  terminal_actions=case["term_actions"])
-    mk = pgl.Grammar.from_string
+    nonempty = bool(make_actions(case))
+
+    def mk(text, with_actions=False):
+        g = pgl.Grammar.from_string(text)
+        # (only for parsers that get a non-empty action set: constructing a parser without actions leaves the
+        # grammar's symbols as they are, by design)
+        if case.get("decoy") and with_actions and nonempty:
+            # the Grammar object served another parser with another action set before: constructing a parser
+            # installs exactly the actions it is given (and the defaults for everything else)
+            def decoy(context, nodes_or_value, *rest, **kw):
+                return ("DECOY",)
+            names = [r["name"] for r in case["rules"]] + list(case["terms"])
+            pgl.Parser(g, actions={n: decoy for i, n in enumerate(names) if (case["decoy"] >> (i % 3)) & 1 or case["decoy"] == 4})
+        return g
+    if case.get("decoy") and nonempty:
+        ctx.label("grammar-object-used-with-other-actions-before")
     try:
-        p_fly = pgl.Parser(mk(text_g), actions=make_actions(case))
-        p_tree = pgl.Parser(mk(text_g), actions=make_actions(case), build_tree=True)
+        p_fly = pgl.Parser(mk(text_g, True), actions=make_actions(case))
+        p_tree = pgl.Parser(mk(text_g, True), actions=make_actions(case), build_tree=True)
         p_plain = pgl.Parser(mk(text_g))
         p_plain_tree = pgl.Parser(mk(text_g), build_tree=True)
-        glr = pgl.GLRParser(mk(text_g), actions=make_actions(case))
+        glr = pgl.GLRParser(mk(text_g, True), actions=make_actions(case))
     except (SRConflicts, RRConflicts):
         ctx.label("discarded:lr-conflicts")
         return
@@ -229,11 +258,11 @@ def run_case(case, ctx):
             tree = out.value
             want = ref_eval(tree, case, helpers, True)
             try:
-                a = conv(p_fly.parse(text))
+                a = tconv(p_fly.parse(text))
             except Exception as e:
                 ctx.fail("on-the-fly-evaluation-raises", error=repr(e)[:300], **info)
             try:
-                b = conv(p_tree.call_actions(tree))
+                b = tconv(p_tree.call_actions(tree))
             except Exception as e:
                 ctx.fail("call_actions-raises", error=repr(e)[:300], **info)
             if a != want:
@@ -242,11 +271,11 @@ def run_case(case, ctx):
                 ctx.fail("call_actions-result-differs-from-reference", got=repr(b)[:400], expected=repr(want)[:400], **info)
             # without user actions: the nested list mirroring the derivation
             want_plain = ref_eval(p_plain_tree.parse(text), case, helpers, False)
-            c = conv(p_plain.parse(text))
+            c = tconv(p_plain.parse(text))
             if c != want_plain:
                 ctx.fail("default-result-differs-from-reference", got=repr(c)[:400],
                          expected=repr(want_plain)[:400], **info)
-            d = conv(p_plain_tree.call_actions(p_plain_tree.parse(text)))
+            d = tconv(p_plain_tree.call_actions(p_plain_tree.parse(text)))
             if d != want_plain:
                 ctx.fail("default-call_actions-differs-from-reference", got=repr(d)[:400],
                          expected=repr(want_plain)[:400], **info)
@@ -256,9 +285,9 @@ def run_case(case, ctx):
                 nt, loop = G.forest_len(gout.value)
                 if not loop and nt == 1:
                     try:
-                        g1 = conv(glr.call_actions(gout.value[0]))
-                        g2 = conv(glr.call_actions(gout.value.get_first_tree()))
-                        g3 = conv(glr.call_actions(gout.value.get_nonlazy_tree(0)))
+                        g1 = tconv(glr.call_actions(gout.value[0]))
+                        g2 = tconv(glr.call_actions(gout.value.get_first_tree()))
+                        g3 = tconv(glr.call_actions(gout.value.get_nonlazy_tree(0)))
                     except Exception as e:
                         ctx.fail("glr-call_actions-raises", error=repr(e)[:300], **info)
                     if not (g1 == g2 == g3 == want):
@@ -306,7 +335,7 @@ def cases(draw):
         rules.append({"name": n, "alts": alts, "action": draw(st.sampled_from(["none", "one", "list", "list"])),
                       "split": split})
     term_actions = [t for t in terms if draw(st.booleans())]
-    return {"rules": rules, "terms": terms, "term_actions": term_actions,
+    return {"rules": rules, "terms": terms, "term_actions": term_actions, "decoy": draw(st.sampled_from([0, 0, 1, 2, 3, 4])),
             "max_len": 5 if len(terms) <= 2 else 4}
 
 
